@@ -182,6 +182,7 @@ class _(_Line):
 class _(_Line):
     """line 7: the single district S of G - X is strictly inside a district S' of G: ID(y, x & S', prod_{S'} P(v | pred), G[S'])"""
     allowed_raises = ("ValueError", "RuntimeError", "NetworkXUnfeasible")
+    expensive = True       # verified under C01 (its owner); C02 uses the contract modularly
 
     def _S(self, ex, a):
         """(S membership given a representative, S' membership) -- in terms of closures of the bidirected relations"""
@@ -242,6 +243,7 @@ class _(_Line):
     district and G is a single district); every recursive call is made on a valid query over an acyclic graph."""
     allowed_raises = ("Unidentifiable",)
     raises_exact = False
+    expensive = True       # verified under C02 (its owner); C01 uses the contract modularly
 
     def pre(self, ex, a):
         from y0vc.libspec import acyclic
